@@ -145,6 +145,7 @@ class WeightedProbabilityBasedSquaredError(ProbabilityBasedLossFunction):
         elif (
             mode_weight == "inverse_sample_covariance"
             or mode_weight == "inverse_unbiased_covariance"
+            or mode_weight == "unbiased_inverse_covariance"
         ):
             weight_matrices = []
             for (num_data, empi_dist_original) in data:
